@@ -22,8 +22,23 @@ fn sk(m: &KeyMat) -> Arc<Box<dyn SigningKey>> {
     m.shared()
 }
 
+/// Signatures are memoised per (records, key, spec): the same honest RRSIG bytes come back for the
+/// same request, whichever family asks (ECDSA signing is randomised; a warm-up world and a
+/// presentation derived from "the" honest world must carry the very same RRSIG).
 pub fn make_sig(records: &[Record], key: &ZoneKey, spec: &SigSpec) -> Record {
-    sign::sign_rrset(records, key, &**sk(&key.mat), spec)
+    use std::hash::{Hash, Hasher};
+    static MEMO: OnceLock<Mutex<HashMap<(u64, u64), Record>>> = OnceLock::new();
+    let text = format!("{records:?}|{}|{}|{}|{}|{spec:?}", key.mat.id, u8::from(key.mat.alg), key.zone, key.flags);
+    let mut h = std::collections::hash_map::DefaultHasher::new();
+    text.hash(&mut h);
+    let k = (h.finish(), vcore::fnv64(text.as_bytes()));
+    let memo = MEMO.get_or_init(|| Mutex::new(HashMap::new()));
+    if let Some(r) = memo.lock().unwrap().get(&k) {
+        return r.clone();
+    }
+    let r = sign::sign_rrset(records, key, &**sk(&key.mat), spec);
+    memo.lock().unwrap().insert(k, r.clone());
+    r
 }
 
 #[derive(Clone)]
@@ -56,6 +71,8 @@ pub struct WorldSpec {
     pub sigs_first: bool,
     /// one extra record inserted at that position of the answer section
     pub inject: Option<(usize, Record)>,
+    /// the complete answer section as served (multiset family); overrides the fields above
+    pub answer_section: Option<Vec<Record>>,
 }
 
 pub fn rrset_kinds() -> Vec<&'static str> {
@@ -200,7 +217,7 @@ impl Base {
         }
         let dnskeys = self.dnskey_records(&self.keys);
         let dnskey_sigs = self.dk_signers.iter().map(|i| make_sig(&dnskeys, &self.keys[*i], &SigSpec::window(dk_win.0, dk_win.1))).collect();
-        WorldSpec { ans_records: self.records.clone(), ans_sigs, authority, dnskeys, dnskey_sigs, sigs_first: false, inject: None }
+        WorldSpec { ans_records: self.records.clone(), ans_sigs, authority, dnskeys, dnskey_sigs, sigs_first: false, inject: None, answer_section: None }
     }
 
     pub fn resign_dnskeys(&self, spec: &mut WorldSpec, dk_win: Win) {
@@ -220,6 +237,9 @@ impl Base {
         }
         if let Some((pos, rec)) = &spec.inject {
             an.insert((*pos).min(an.len()), rec.clone());
+        }
+        if let Some(full) = &spec.answer_section {
+            an = full.clone();
         }
         t.insert(key_of(&self.qname, self.qtype), sign::response(&q, an, spec.authority.clone()).to_vec().unwrap());
         let dq = Query::new(self.zone.clone(), RecordType::DNSKEY);
@@ -810,6 +830,302 @@ pub fn multi_sigs(b: &Base, thorough: bool, triples: bool) -> Vec<Scenario> {
 }
 
 // ------------------------------------------------------------------------------------------
+// F2e: MULTISET mutations of the answer section: forged records added k times, genuine records
+// duplicated / removed / replaced, two different forged records, RRSIGs duplicated / replaced /
+// removed, every order of the records, the RRset copied under another owner / class. Cold these
+// are one more content family; their point is the WARM presentation (WarmBlock below).
+
+fn new_rdata2(b: &Base) -> RData {
+    match b.qtype {
+        RecordType::A => RData::A(A::new(7, 7, 7, 7)),
+        RecordType::TXT => RData::TXT(TXT::new(vec!["evil-too".into()])),
+        RecordType::MX => RData::MX(MX::new(2, vsec::n("evil2.e."))),
+        RecordType::NS => RData::NS(NS(vsec::n("evil2.e."))),
+        _ => RData::CNAME(CNAME(vsec::n("evil2.e."))),
+    }
+}
+
+fn permutations(n: usize) -> Vec<Vec<usize>> {
+    fn rec(cur: &mut Vec<usize>, used: &mut Vec<bool>, out: &mut Vec<Vec<usize>>) {
+        if cur.len() == used.len() {
+            out.push(cur.clone());
+            return;
+        }
+        for i in 0..used.len() {
+            if !used[i] {
+                used[i] = true;
+                cur.push(i);
+                rec(cur, used, out);
+                cur.pop();
+                used[i] = false;
+            }
+        }
+    }
+    let mut out = vec![];
+    rec(&mut vec![], &mut vec![false; n], &mut out);
+    out
+}
+
+/// (description, complete answer section) of every multiset mutation of the honest answer
+pub fn multiset_sections(b: &Base, h: &WorldSpec, now: u64) -> Vec<(String, Vec<Record>)> {
+    let g = h.ans_records.clone();
+    let n = g.len();
+    let s = h.ans_sigs[0].clone();
+    let x = {
+        let mut r = g[0].clone();
+        r.data = new_rdata(b);
+        r
+    };
+    let y = {
+        let mut r = g[0].clone();
+        r.data = new_rdata2(b);
+        r
+    };
+    // the first genuine record in class CH: same owner, type and RDATA, another class
+    let c = {
+        let mut r = g[0].clone();
+        r.dns_class = DNSClass::CH;
+        r
+    };
+    let honest: Vec<Record> = g.iter().cloned().chain([s.clone()]).collect();
+    let mut out: Vec<(String, Vec<Record>)> = vec![];
+    let rep = |r: &Record, k: usize| -> Vec<Record> { std::iter::repeat(r.clone()).take(k).collect() };
+    let with_at = |base: &[Record], pos: usize, add: Vec<Record>| -> Vec<Record> {
+        let mut v = base.to_vec();
+        let p = pos.min(v.len());
+        v.splice(p..p, add);
+        v
+    };
+    // (a) a forged record k times, the copies side by side at every position
+    for (fname, f) in [("forged record X (new RDATA)", &x), ("class-CH twin C of the first genuine record", &c)] {
+        for k in 1..=4usize {
+            for pos in 0..=n + 1 {
+                out.push((format!("{fname} added {k} time(s) at position {pos}"), with_at(&honest, pos, rep(f, k))));
+            }
+        }
+        // (b) the copies apart from one another
+        let mut v = with_at(&honest, 0, rep(f, 1));
+        v.push(f.clone());
+        out.push((format!("{fname} added twice: in front and at the end"), v));
+        let mut v = with_at(&honest, 0, rep(f, 2));
+        v.extend(rep(f, 2));
+        out.push((format!("{fname} added four times: two in front, two at the end"), v));
+        let mut v = with_at(&honest, 1, rep(f, 1));
+        v.push(f.clone());
+        out.push((format!("{fname} added twice: behind the first record and at the end"), v));
+    }
+    // (c) a genuine record duplicated
+    for i in 0..n {
+        for k in 1..=3usize {
+            out.push((format!("genuine record {i} duplicated: {k} extra copies next to it"), with_at(&honest, i + 1, rep(&g[i], k))));
+        }
+        let mut v = honest.clone();
+        v.push(g[i].clone());
+        out.push((format!("genuine record {i} duplicated: one extra copy behind the RRSIG"), v));
+    }
+    let mut v = vec![];
+    for r in &g {
+        v.extend(rep(r, 2));
+    }
+    v.push(s.clone());
+    out.push(("every genuine record twice".into(), v));
+    // (d) a genuine record removed / (e) replaced
+    for i in 0..n {
+        let mut v = honest.clone();
+        v.remove(i);
+        out.push((format!("genuine record {i} removed"), v.clone()));
+        for (what, add) in [
+            ("X", rep(&x, 1)),
+            ("X X", rep(&x, 2)),
+            ("X X X X", rep(&x, 4)),
+            ("X Y", vec![x.clone(), y.clone()]),
+            ("X X Y Y", vec![x.clone(), x.clone(), y.clone(), y.clone()]),
+            ("its class-CH twin", rep(&{ let mut r = g[i].clone(); r.dns_class = DNSClass::CH; r }, 1)),
+            ("its class-CH twin twice", rep(&{ let mut r = g[i].clone(); r.dns_class = DNSClass::CH; r }, 2)),
+        ] {
+            out.push((format!("genuine record {i} replaced by {what}"), with_at(&v, i, add)));
+        }
+    }
+    // (f) two different forged records
+    for (what, add) in [
+        ("X Y", vec![x.clone(), y.clone()]),
+        ("X X Y", vec![x.clone(), x.clone(), y.clone()]),
+        ("X X Y Y", vec![x.clone(), x.clone(), y.clone(), y.clone()]),
+        ("X Y X Y", vec![x.clone(), y.clone(), x.clone(), y.clone()]),
+        ("X Y Y X", vec![x.clone(), y.clone(), y.clone(), x.clone()]),
+    ] {
+        for pos in [0, n, n + 1] {
+            out.push((format!("forged records {what} added at position {pos}"), with_at(&honest, pos, add.clone())));
+        }
+    }
+    // (g) every genuine record replaced
+    for (what, add) in [("X", rep(&x, 1)), ("X X", rep(&x, 2)), ("X X Y Y", vec![x.clone(), x.clone(), y.clone(), y.clone()]), ("X Y", vec![x.clone(), y.clone()])] {
+        let mut v = add.clone();
+        v.push(s.clone());
+        out.push((format!("all genuine records replaced by {what}"), v));
+    }
+    // (h) the RRSIG duplicated / removed / replaced
+    let cands = sig_candidates(b, now);
+    let get = |ch: char| cands.iter().find(|c| c.0 == ch).map(|c| c.1.clone());
+    for k in 1..=3usize {
+        out.push((format!("RRSIG duplicated: {k} extra copies"), with_at(&honest, n + 1, rep(&s, k))));
+    }
+    out.push(("RRSIG duplicated: one copy in front of the records".into(), with_at(&honest, 0, rep(&s, 1))));
+    out.push(("RRSIG removed".into(), g.clone()));
+    out.push(("RRSIG removed, X X added".into(), with_at(&g, n, rep(&x, 2))));
+    out.push(("RRSIG twice and X twice".into(), with_at(&with_at(&honest, n + 1, rep(&s, 1)), n, rep(&x, 2))));
+    out.push(("X between two copies of the RRSIG, X at the end".into(), { let mut v = with_at(&honest, n + 1, vec![x.clone(), s.clone()]); v.push(x.clone()); v }));
+    for (ch, what) in [('E', "an expired one"), ('F', "a not yet valid one"), ('X', "a broken one"), ('S', "one made by the sibling zone"), ('K', "one made by another key of the zone"), ('T', "one with another key tag")] {
+        let Some(o) = get(ch) else { continue };
+        out.push((format!("RRSIG replaced by {what}"), g.iter().cloned().chain([o.clone()]).collect()));
+        out.push((format!("{what} in front of the RRSIG"), with_at(&honest, n, vec![o.clone()])));
+        out.push((format!("{what} behind the RRSIG"), with_at(&honest, n + 1, vec![o.clone()])));
+        out.push((format!("RRSIG replaced by {what}, X X added"), g.iter().cloned().chain(rep(&x, 2)).chain([o.clone()]).collect()));
+    }
+    // (i) every order of the records x RRSIG in front / in the middle / at the end
+    if n <= 3 {
+        for perm in permutations(n) {
+            let recs: Vec<Record> = perm.iter().map(|i| g[*i].clone()).collect();
+            for spos in (0..=n).rev() {
+                if perm.iter().enumerate().all(|(a, b)| a == *b) && spos == n {
+                    continue;
+                }
+                out.push((format!("records in order {perm:?}, RRSIG at position {spos}"), with_at(&recs, spos, vec![s.clone()])));
+            }
+        }
+    }
+    // (j) the signed RRset once more under another owner / class (two RRsets in one response)
+    let other = first_label_replaced(&g[0].name, "wwx");
+    let reowned = |name: &Name, class: DNSClass, with_sig: bool| -> Vec<Record> {
+        let mut v: Vec<Record> = g.iter().cloned().collect();
+        if with_sig {
+            v.push(s.clone());
+        }
+        for r in v.iter_mut() {
+            r.name = name.clone();
+            r.dns_class = class;
+        }
+        v
+    };
+    for (what, add) in [
+        ("a copy of records + RRSIG under a sibling owner", reowned(&other, DNSClass::IN, true)),
+        ("a copy of the records under a sibling owner, no RRSIG", reowned(&other, DNSClass::IN, false)),
+        ("a copy of records + RRSIG in class CH", reowned(&g[0].name, DNSClass::CH, true)),
+        ("a copy of records + RRSIG under a sibling owner in class CH", reowned(&other, DNSClass::CH, true)),
+    ] {
+        out.push((format!("{what}, behind the answer"), with_at(&honest, n + 1, add.clone())));
+        out.push((format!("{what}, in front of the answer"), with_at(&honest, 0, add.clone())));
+    }
+    out.push(("records + RRSIG ONLY under a sibling owner".into(), reowned(&other, DNSClass::IN, true)));
+    out.push(("records + RRSIG ONLY in class CH".into(), reowned(&g[0].name, DNSClass::CH, true)));
+    // (k) received TTLs (the validation-cache key leaves TTLs out)
+    for ttl in [0u32, 50, TTL + 1, 3000] {
+        let mut v = honest.clone();
+        v.iter_mut().for_each(|r| r.ttl = ttl);
+        out.push((format!("every received TTL {ttl}"), v));
+        let mut v = honest.clone();
+        v[0].ttl = ttl;
+        out.push((format!("received TTL of the first record {ttl}"), v));
+    }
+    out
+}
+
+pub fn multisets(b: &Base) -> Vec<Scenario> {
+    let now = T0;
+    let w = wide(now);
+    let h = b.honest(w, w);
+    multiset_sections(b, &h, now)
+        .into_iter()
+        .map(|(what, an)| {
+            let mut s = h.clone();
+            s.answer_section = Some(an);
+            b.single("multiset", what, now, &s)
+        })
+        .collect()
+}
+
+/// The honest world and the honest world with every genuine record served twice (RFC 2181 5:
+/// duplicates are suppressed) - the two warm-ups of the warm family.
+pub fn warmups(b: &Base, now: u64) -> Vec<(&'static str, Table)> {
+    let w = wide(now);
+    let h = b.honest(w, w);
+    let mut dup = h.clone();
+    let mut an = vec![];
+    for r in &h.ans_records {
+        an.push(r.clone());
+        an.push(r.clone());
+    }
+    an.extend(h.ans_sigs.iter().cloned());
+    dup.answer_section = Some(an);
+    vec![("honest", b.assemble(&h, now)), ("honest-every-record-twice", b.assemble(&dup, now))]
+}
+
+// ------------------------------------------------------------------------------------------
+// F5: WARM presentations. Every content mutation P of the cold families (one world, one validate)
+// is presented again to a handle that has validated the honest world before (and in further
+// orders), optionally under a handle configuration. Addressed lazily.
+
+#[derive(Clone, Copy, PartialEq, Eq, Debug)]
+pub enum WarmShape {
+    /// honest ; P
+    HP,
+    /// honest with every record twice ; P
+    DP,
+    /// P ; honest ; P
+    PHP,
+    /// honest ; P ; P
+    HPP,
+    /// honest ; P ; honest
+    HPH,
+    /// honest via the handle, P via a clone of the handle
+    HPclone,
+}
+
+pub struct WarmBlock {
+    pub base: Base,
+    pub cold: Arc<Vec<Scenario>>,
+    pub warm: Vec<(&'static str, Table)>,
+    pub shapes: Vec<WarmShape>,
+    pub cfgs: Vec<crate::scen::HandleCfg>,
+}
+
+impl WarmBlock {
+    pub fn new(b: &Base, cold: Arc<Vec<Scenario>>, shapes: Vec<WarmShape>, cfgs: Vec<crate::scen::HandleCfg>) -> Self {
+        WarmBlock { base: b.clone(), cold, warm: warmups(b, T0), shapes, cfgs }
+    }
+    pub fn count(&self) -> u64 {
+        (self.cold.len() * self.shapes.len() * self.cfgs.len()) as u64
+    }
+    pub fn scenario(&self, i: u64) -> Scenario {
+        let i = i as usize;
+        let c = &self.cold[i % self.cold.len()];
+        let rest = i / self.cold.len();
+        let shape = self.shapes[rest % self.shapes.len()];
+        let cfg = &self.cfgs[rest / self.shapes.len()];
+        assert!(c.worlds.len() == 1 && c.t0 == T0, "warm family: cold scenario with one world at T0 expected");
+        let p = c.worlds[0].clone();
+        let v = |world: usize| Step::Validate { world, clone: false };
+        // world 0 = warm-up, world 1 = P
+        let (warm, steps, how) = match shape {
+            WarmShape::HP => (0, vec![v(0), v(1)], "honest ; P"),
+            WarmShape::DP => (1, vec![v(0), v(1)], "honest with every record twice ; P"),
+            WarmShape::PHP => (0, vec![v(1), v(0), v(1)], "P ; honest ; P"),
+            WarmShape::HPP => (0, vec![v(0), v(1), v(1)], "honest ; P ; P"),
+            WarmShape::HPH => (0, vec![v(0), v(1), v(0)], "honest ; P ; honest"),
+            WarmShape::HPclone => (0, vec![v(0), Step::Validate { world: 1, clone: true }], "honest ; P via a clone of the handle"),
+        };
+        let what = c.desc.splitn(2, ": ").nth(1).unwrap_or(&c.desc);
+        let fam = c.family;
+        let mut sc = self.base.scenario("warm", format!("[{how}; handle {}] P = {fam}: {what}", cfg.tag()), T0, vec![self.warm[warm].1.clone(), p], steps);
+        sc.cfg = cfg.clone();
+        // (the key-owner family adds a trust anchor of its own)
+        sc.anchors = c.anchors.clone();
+        sc.query = c.query.clone();
+        sc
+    }
+}
+
+// ------------------------------------------------------------------------------------------
 // F3: clock grid
 
 pub fn clock_grid(b: &Base, thorough: bool) -> Vec<Scenario> {
@@ -906,8 +1222,19 @@ impl HistoryBlock {
         other_sig.ans_sigs = vec![make_sig(&b.records, &b.keys[b.ans_signer], &b.ans_spec(long))];
         let mut low_ttl = h.clone();
         low_ttl.ans_records.iter_mut().chain(low_ttl.ans_sigs.iter_mut()).for_each(|r| r.ttl = 50);
-        let worlds = vec![b.assemble(&h, T0), b.assemble(&flipped, T0), b.assemble(&other_sig, T0), b.assemble(&low_ttl, T0)];
-        let world_names = vec!["honest", "signature-bit-flipped", "honest-with-longer-lived-RRSIG", "honest-received-ttl-50"];
+        // same RRSIG, a forged record served twice next to the genuine ones
+        let mut forged_twice = h.clone();
+        {
+            let mut x = h.ans_records[0].clone();
+            x.data = new_rdata(b);
+            let mut an = h.ans_records.clone();
+            an.push(x.clone());
+            an.push(x);
+            an.extend(h.ans_sigs.iter().cloned());
+            forged_twice.answer_section = Some(an);
+        }
+        let worlds = vec![b.assemble(&h, T0), b.assemble(&flipped, T0), b.assemble(&other_sig, T0), b.assemble(&low_ttl, T0), b.assemble(&forged_twice, T0)];
+        let world_names = vec!["honest", "signature-bit-flipped", "honest-with-longer-lived-RRSIG", "honest-received-ttl-50", "honest-plus-forged-record-twice"];
         let mut ops = vec![];
         for w in 0..worlds.len() {
             ops.push(Step::Validate { world: w, clone: false });
